@@ -8,6 +8,15 @@ for l in open('/verif/properties.jsonl'):
         break
 else:
     sys.exit('no such property')
+import glob, os
+taken=[]
+for d in sorted(glob.glob('/verif/seeded/*/meta.json')):
+    m=json.load(open(d))
+    if m.get('property')==pid and m.get('change'):
+        taken.append('  - '+m['change'])
+avoid=''
+if taken and '--no-avoid' not in sys.argv:
+    avoid='\n\nChanges that earlier testers already made for this property (do something DIFFERENT - another function, another mechanism):\n'+'\n'.join(taken)+'\n'
 print(f"""You are testing how robust a Go library is against subtle regressions. You work ONLY inside the git worktree {wt} (a checkout of the repository openfga/language: ANTLR grammar, DSL<->JSON transformers, module merging, weighted type graph; the Go code is in {wt}/pkg/go). Do not touch /repo or /verif, and do not read anything under /verif.
 
 Every Go command needs this environment (the sandbox is offline): 
@@ -26,6 +35,9 @@ Your task: make ONE small, realistic change to the non-test Go source under {wt}
   (2) the property above is now violated for some input;
   (3) the violation needs something specific to manifest - an unusual input shape, a multi-step sequence, a particular map-iteration order, two sites that each look fine alone - not something ordinary use exposes immediately.
 Do not edit test files, generated parser files (pkg/go/gen), go.mod or anything outside pkg/go. Keep the change to a few lines. The change must make behaviour WORSE relative to the property than the unchanged code: first check that your demonstration passes on the UNCHANGED code (the unchanged code has some pre-existing bugs; pick a behaviour that is correct before your change).
+
+{avoid}
+Do not read the git history of the worktree (git log / git show); work from the source as it is.
 
 Deliver, inside {wt}:
   - the change itself left applied in the working tree (uncommitted), and also saved as {wt}/patch.diff (output of `git diff -- pkg/go`, made before adding the demo file);
